@@ -69,7 +69,7 @@ def shapes(tier, seed):
         three_p += S.trees(list(perm))
     if tier == "quick":
         return base + rnd.sample(four, 4) + rnd.sample(three_p, 2)
-    return base + rnd.sample(four, min(40, len(four))) + three_p
+    return base + rnd.sample(four, min(30, len(four))) + three_p
 
 
 def build(tier, seed, exclude):
@@ -83,8 +83,8 @@ def build(tier, seed, exclude):
         cs = combos(t)
         if quick and len(cs) > 3:
             cs = rnd.sample(cs, 3)
-        elif not quick and len(cs) > 6:
-            cs = rnd.sample(cs, 6)
+        elif not quick and len(cs) > 4:
+            cs = rnd.sample(cs, 4)
         maxlen = 3 if len(fs) <= 3 else 2
         for comb in cs:
             params = ", ".join(f"n{f}: int" for f in fs)
